@@ -1,4 +1,7 @@
 import PyYetiVerif.Props.C17
+import PyYetiVerif.Props.C17Conv
+import PyYetiVerif.Props.C17Stab
+import PyYetiVerif.Props.C17Cdf
 #print axioms PyYetiVerif.C17.newmark_is_documented
 #print axioms PyYetiVerif.C17.newmark_central_differences
 #print axioms PyYetiVerif.C17.newmark_consistent
@@ -8,3 +11,22 @@ import PyYetiVerif.Props.C17
 #print axioms PyYetiVerif.C17.massless_ok
 #print axioms PyYetiVerif.C17.cdf_is_documented
 #print axioms PyYetiVerif.C17.cdf_diag_eq_unc
+#print axioms PyYetiVerif.C17.newmark_run_is_sequence
+#print axioms PyYetiVerif.C17.newmark_error_recursion
+#print axioms PyYetiVerif.C17.newmark_truncation_bound
+#print axioms PyYetiVerif.C17.newmark_startup_error_bound
+#print axioms PyYetiVerif.C17.newmark_converges_scalar
+#print axioms PyYetiVerif.C17.newmark_converges_scalar_second_order
+#print axioms PyYetiVerif.C17.newmark_energy_identity
+#print axioms PyYetiVerif.C17.newmark_power_bounded_scalar
+#print axioms PyYetiVerif.C17.newmark_energy_stable
+#print axioms PyYetiVerif.C17.newmark_free_response_bounded
+#print axioms PyYetiVerif.C17.newmark_stable_full
+#print axioms PyYetiVerif.C17.newmark_stable_modal
+#print axioms PyYetiVerif.C17.massless_rows_quasistatic
+#print axioms PyYetiVerif.C17.rf_rows_static
+#print axioms PyYetiVerif.C17.cdf_alpha_identity
+#print axioms PyYetiVerif.C17.cdf_alpha_transpose_solve
+#print axioms PyYetiVerif.C17.cdf_alpha_transposed_variant_differs
+#print axioms PyYetiVerif.C17.cdf_step_is_exact_for_interpolated_damping_force
+#print axioms PyYetiVerif.C17.cdf_run_is_unc_with_damping_force
